@@ -303,14 +303,14 @@ pub struct DynOption<T> { inner: T }
 impl<T: Message> DynOption<T> {
     pub uninterp spec fn dview(&self) -> MV;
 
-    /// the closure must be callable for EVERY inner value (it runs on whatever the peer sent);
-    /// its result for the current value is recorded
+    /// the closure must be callable for EVERY inner value of the same layout (the engine runs it on whatever the peer sent
+    /// into that layout); its result for the current value is recorded
     #[verifier::external_body]
     pub fn new<F: Fn(&T) -> MessageOption>(current: T, filter: F) -> (r: Self)
-        requires forall|t: &T| #[trigger] call_requires(filter, (t,))
+        requires forall|t: &T| same_shape(current.mv(), t.mv()) ==> #[trigger] call_requires(filter, (t,))
         ensures
             r.dview() matches MV::Dyn(b, o) && *b == current.mv()
-                && (forall|mo: MessageOption| #![auto] call_ensures(filter, (&current,), mo) ==> mo.ov() == o)
+                && (exists|mo: MessageOption| #![auto] call_ensures(filter, (&current,), mo) && mo.ov() == o)
     { unimplemented!() }
 }
 
@@ -343,7 +343,7 @@ impl<T: Message> Array<T> {
             forall|a: T, b: T| #![auto] call_ensures(factory, (), a) && call_ensures(factory, (), b) ==> a.mv() == b.mv(),
         ensures
             r.aview() matches MV::Arr(s, p) && s.len() == 0
-                && (forall|a: T| #![auto] call_ensures(factory, (), a) ==> a.mv() == *p)
+                && (exists|a: T| #![auto] call_ensures(factory, (), a) && a.mv() == *p)
     { unimplemented!() }
 
     #[verifier::external_body]
